@@ -66,7 +66,8 @@ PURE_BUILTINS = {"divmod", "pow", "round", "ord", "chr", "hex", "len", "range", 
 
 class PX:
     def __init__(self, repo, *, models=None, inline=None, max_paths=20000, max_depth=4, cancel=False,
-                 loop_iters=(0, 1, 2), while_bound=3, facts=None, auto_timeout=True, pure=(), refine_membership=False):
+                 loop_iters=(0, 1, 2), while_bound=3, facts=None, auto_timeout=True, pure=(), refine_membership=False,
+                 fork_loop_bound=12, budget_s=120.0):
         self.repo = repo
         self.models = list((models or {}).items()) if isinstance(models, dict) else list(models or [])
         self.inline = inline  # None: same-class sync methods + closures; else callable(FuncRef, awaited)->bool
@@ -76,6 +77,10 @@ class PX:
         self.facts = dict(facts or {})
         self.auto_timeout = auto_timeout
         self.refine_membership = refine_membership
+        # a `while` whose condition is concretely true may run long (table builders); one whose body forks
+        # (outcomes, undetermined tests) is abandoned after this many forking iterations (path recorded as truncated)
+        self.fork_loop_bound = fork_loop_bound
+        self.budget_s = budget_s  # wall-clock budget of one exploration: exceeded -> AnalysisError, never a verdict
         self.pure = tuple(pure)  # callee text patterns that are side-effect free & uninteresting (no event)
         self.hier = Hierarchy(repo)
         self.truncated = 0
@@ -114,11 +119,16 @@ class PX:
         return self._run(entry)
 
     def _run(self, entry):
+        import time as _time
+
         pending = [[]]
         paths = []
         self.truncated = 0
         self.truncated_paths = []
+        t_end = _time.monotonic() + self.budget_s
         while pending:
+            if _time.monotonic() > t_end:
+                raise AnalysisError(f"exploration budget of {self.budget_s:.0f} s exceeded ({len(paths)} paths done, {len(pending)} pending)")
             script = pending.pop()
             self._script, self._pos, self._taken, self._new = script, 0, [], []
             self.events, self.memo, self.counters, self.symfields = [], {}, {}, {}
@@ -389,7 +399,7 @@ class PX:
             self.exec_block(st.orelse, fr)
 
     def s_While(self, st, fr):
-        n = 0
+        n = nfork = 0
         while True:
             c = self.ev(st.test, fr)
             known = not isinstance(c, Sym)
@@ -397,14 +407,18 @@ class PX:
                 self.exec_block(st.orelse, fr)
                 return
             n += 1
-            if n > (200 if known else self.while_bound):
+            if n > (200 if known else self.while_bound) or nfork > self.fork_loop_bound:
                 raise Truncated()
+            taken = len(self._taken)
             try:
                 self.exec_block(st.body, fr)
             except _Break:
                 return
             except _Continue:
                 continue
+            finally:
+                if len(self._taken) > taken:
+                    nfork += 1
 
     # -- match statement
     def s_Match(self, st, fr):
@@ -924,6 +938,8 @@ class PX:
         if isinstance(b, Exc):
             return Sym(f"{b.cls_name}.{attr}")
         if isinstance(b, (list, dict, set, frozenset, tuple, str, bytes, bytearray, int, float)) or b is None:
+            if not hasattr(b, attr):
+                raise Exc("AttributeError", (f"{type(b).__name__!r} object has no attribute {attr!r}",), origin=_text(e) if e is not None else attr)
             return _PyMethod(b, attr)
         if isinstance(b, Closure):
             return Sym(f"{b.name}.{attr}")
